@@ -539,6 +539,9 @@ func cmdCheck(args []string) int {
 	}
 	workers := fs.Int("workers", defWorkers, "workers")
 	fs.Parse(args)
+	if *only != "" {
+		os.Setenv("VERIF_PARTIAL", "1")
+	}
 	if fs.NArg() < 2 {
 		fmt.Fprintln(os.Stderr, "usage: gosym check [-only F] <id> <quick|thorough>")
 		return 2
@@ -806,7 +809,13 @@ func writeEvidence(verifDir, id, tier string, seed int, cc *CheckCfg, results []
 	if states == 0 {
 		ev["coverage"].(map[string]interface{})["states"] = 0
 	}
-	os.MkdirAll(filepath.Join(verifDir, "evidence"), 0o755)
+	// evidence/ only ever describes runs against /repo itself; runs against another tree
+	// (VERIF_REPO=..., used to evaluate seeded changes) or partial runs (-only) go elsewhere
+	dir := "evidence"
+	if envOr("VERIF_REPO", "/repo") != "/repo" || os.Getenv("VERIF_PARTIAL") != "" {
+		dir = "evidence-scratch"
+	}
+	os.MkdirAll(filepath.Join(verifDir, dir), 0o755)
 	b, _ := json.MarshalIndent(ev, "", " ")
-	os.WriteFile(filepath.Join(verifDir, "evidence", id+".json"), b, 0o644)
+	os.WriteFile(filepath.Join(verifDir, dir, id+".json"), b, 0o644)
 }
